@@ -23,19 +23,19 @@ NA = {
 CHECKS = {
  "C06": dict(engine="typing-world", category="exploration", design_ref="DESIGN.md 3.1",
    technique="deterministic simulation: seeded multi-client call histories over process-global class state, each answer compared with the same query issued first in a pristine fork",
-   text="Seeded search over call histories (1-3 interleaved clients, 12-60 operations, kit + generic + run-defined classes, real kit plasmids incl. rotated and synthetic records); every observing call is compared with the same call made FIRST in a process forked from a never-used template. Quick: 1200 random histories + 400 pair-prefixed ones; thorough: 36000 random + every ordered pair of kit classes as a forced prefix. Sampling, not proof: the right level for a property quantified over unbounded histories whose only carrier is process-global state.",
+   text="Seeded search over call histories (1-3 interleaved clients, 12-60 operations: instantiate / is_valid / overhangs / target / placeholder / characterize / structure / class definitions at run time (same-name, cross-role, sub-classes of concrete parts) / registry loading and assemblies as priming / handles dropped and record objects re-created) over kit, generic and run-defined classes and real kit plasmids incl. rotated, synthetic, illegal-site and linear-twin records; every observing call is compared with the same call made FIRST in a process forked from a never-used template, and a sample of oracle answers with really fresh interpreters. Quick: 1200 random histories + 400 pair-prefixed ones; thorough: 36000 random + every ordered pair of kit classes as a forced prefix. Sampling, not proof: the right level for a property quantified over unbounded histories whose only carrier is process-global state.",
    note="Trusts: fork of the pristine template == fresh interpreter (cross-checked against fresh interpreters on a sample every run); Biopython/property_cached as shipped; operations are atomic (library is synchronous). Oracle is the same code without history, so a class that is wrong with and without history alike is not flagged (that is C04/C05)."),
  "C07": dict(engine="assembly-world", category="fault_enumeration", design_ref="DESIGN.md 3.2",
    technique="deterministic simulation with fault injection: seeded assemble() histories over shared record objects, exceptions injected at every enumerated crash point (element-call boundaries, interior source lines), snapshot-purity and fresh-process refinement oracles",
-   text="For sampled scenarios the set of call-boundary crash points of an assemble call (every call the manager makes into its elements x before/after) is measured by a dry run and enumerated completely, interior line-level crash points inside fragment extraction are enumerated (thorough) or strided (quick); random multi-client histories add natural failures at every chain position, repeated instances, caller edits/repairs and retries. After EVERY operation every record of the shared pool is compared with its snapshot, and every un-faulted call is compared with the same call executed first in a pristine process on fresh copies. Scenarios are sampled (seeded), crash points per scenario are enumerated: fault_enumeration.",
+   text="For sampled scenarios the set of call-boundary crash points of an assemble call (every call the manager makes into its elements x before/after) is measured by a dry run and enumerated completely, interior line-level crash points inside fragment extraction are enumerated (thorough) or strided (quick); random multi-client histories add natural failures at every chain position (incl. UnusedModules raised as an error), repeated instances, records sharing an id, caller edits/repairs (sequence, annotations, citations in place), direct calls on shared wrappers, retries, real CIDAR/YTK assemblies and two-level assemblies whose kept products join the shared pool. After EVERY operation every record of the shared pool is compared with its snapshot, and every un-faulted call is compared with the same call executed first in a pristine process on fresh copies. Scenarios are sampled (seeded), crash points per scenario are enumerated: fault_enumeration.",
    note="Crash points are Exception subclasses raised at element-call boundaries or moclo source lines inside target_sequence; exceptions inside the restoring code itself and BaseException-only signals are outside the quantifier. Purity is by value over a canonical deep snapshot (absent reference list == empty). Operations are atomic."),
  "C10": dict(engine="assembly-world", category="exploration", design_ref="DESIGN.md 3.3",
    technique="deterministic simulation: same seeded assemble() histories (consecutive calls, calls after failed and fault-injected calls), citation oracle by index arithmetic over the generated catalogue plus citation-free reference execution in a pristine process",
-   text="Every product returned in the simulated histories is checked by an oracle computed from the generated catalogue only: bracketed in-range indices, each inherited feature (traced by a unique note tag) cites exactly the references its source cited, each cited reference listed once, product equal to the citation-free assembly, inputs' citation data unchanged. Seeded sampling of pools (0-5 references, shared by object or by content, different positions in different records) and histories: exploration.",
+   text="Every product returned in the simulated histories is checked by an oracle computed from the generated catalogue only: bracketed in-range indices, each inherited feature (traced by a unique note tag) cites exactly the references its source cited, each cited reference listed once, product equal to the citation-free assembly, inputs' citation data unchanged. Seeded sampling of pools (0-5 references, shared by object or by content, same title / same paper told apart by span or remark, a reference listed twice, different positions in different records) and histories (incl. products re-used at the next level): exploration.",
    note="Generator restrictions keep the check inside the statement: well-formed in-range citations, no record lists two references equal by content, citation lists not aliased. References are told apart by title."),
  "C20": dict(engine="registry-world", category="exploration", design_ref="DESIGN.md 3.4",
    technique="deterministic simulation with fault injection: real registry classes over a simulated store (seeded listing permutations, short reads, injected I/O errors at scandir/getinfo/openbin/read offsets) and seeded combination histories, checked operation by operation against a dictionary model; exhaustive sweep of the five embedded registries",
-   text="Seeded search over directory contents, registry combinations and lookup keys, with the storage medium under simulator control; fault-free and fault-injecting batches are separate; after any injected I/O error every later operation must be exact again. All 362 items of the five embedded archives (built by the repo's own build_ext) are looked up in every run of the check. Sampling of configurations and fault placements: exploration.",
+   text="Seeded search over directory contents, registry combinations and lookup keys, with the storage medium under simulator control; fault-free and fault-injecting batches are separate; after any injected I/O error every later operation must be exact again; a share of the fault-free runs reads real directories through OSFS. All 362 items of the five embedded archives (built by the repo's own build_ext) are looked up in every run of the check. Sampling of configurations and fault placements: exploration.",
    note="Storage medium is a stub (MemoryFS primitives / in-memory archive bytes below real BufferedReader, tarfile, gzip, GenBank parser, FS.filterdir/open). Inputs stay inside the precondition (typed plasmids, distinct stems, case-sensitive store, hashable keys). Resistance judged against the kits' label convention."),
 }
 def main():
